@@ -148,6 +148,12 @@ func (m *Model) step(cur interface{}, st *Step) (interface{}, error) {
 			if !f.IsValid() {
 				return nil, merr("no field %s", st.Field)
 			}
+			if f.Kind() == reflect.Ptr && isNumKind(f.Type().Elem().Kind()) {
+				if f.IsNil() {
+					return nil, merr("nil pointer to number %s", st.Field)
+				}
+				return f.Elem().Interface(), nil // the engine looks through a pointer to a number
+			}
 			return f.Interface(), nil
 		case reflect.Map: // JSON object
 			if rv.Type().Key().Kind() != reflect.String || rv.Type().Elem().Kind() != reflect.Interface {
@@ -423,7 +429,20 @@ func compare(op string, l, r interface{}) (interface{}, error) {
 		var c int
 		if lf == famFloat || rf == famFloat {
 			a, b := toF(l), toF(r)
-			c = cmp3(a < b, a > b)
+			switch op { // IEEE semantics, also for NaN (every ordered comparison with NaN is false)
+			case "==":
+				return a == b, nil
+			case "!=":
+				return a != b, nil
+			case "<":
+				return a < b, nil
+			case "<=":
+				return a <= b, nil
+			case ">":
+				return a > b, nil
+			default:
+				return a >= b, nil
+			}
 		} else if lf == famUint && rf == famUint {
 			a, b := asU(l), asU(r)
 			c = cmp3(a < b, a > b)
@@ -866,6 +885,12 @@ func (m *Model) Assign(p *Path, v interface{}) error {
 			f := rv.Elem().FieldByName(last.Field)
 			if !f.IsValid() || !f.CanSet() {
 				return merr("no settable field %s", last.Field)
+			}
+			if f.Kind() == reflect.Ptr && isNumKind(f.Type().Elem().Kind()) && isNum(famOf(v)) {
+				if f.IsNil() {
+					return merr("assignment through nil pointer to number")
+				}
+				return storeGo(f.Elem(), v) // written through the pointer: the pointer itself stays
 			}
 			return storeGo(f, v)
 		case reflect.Map: // JSON object: stores the value with the kind it has
